@@ -217,7 +217,7 @@ class GridSearch(BaseEstimator, MetaEstimatorMixin):
 
             def loss_fct(i):
                 return (
-                    self.objective_weight * self.objectives_[i]
+                    (1.0 - self.constraint_weight) * self.objectives_[i]
                     + self.constraint_weight * self.gammas_[grid.columns[i]].max()
                 )
 
